@@ -152,7 +152,9 @@ func c10Generate(thorough bool) []c10Case {
 		"CREATE TABLE t (a PRIMARY KEY, b COLLATE NOCASE UNIQUE, c, UNIQUE (c, a))",
 	}
 	mods := []string{"", " COLLATE NOCASE", " DESC", " COLLATE RTRIM DESC", " COLLATE BINARY ASC"}
-	colsets := [][]string{{"a"}, {"b"}, {"c"}, {"a", "b"}, {"b", "a"}, {"c", "b"}, {"a", "b", "c"}, {"c", "a", "b"}, {"b", "b"}, {"A"}, {`"b"`}, {"'a'"}, {"'b'", "[a]"}, {"a + 1"}, {"b", "lower(c)"}, {"rowid"}}
+	colsets := [][]string{{"a"}, {"b"}, {"c"}, {"a", "b"}, {"b", "a"}, {"c", "b"}, {"a", "b", "c"}, {"c", "a", "b"}, {"b", "b"}, {"A"}, {`"b"`}, {"'a'"}, {"'b'", "[a]"}, {"a + 1"}, {"b", "lower(c)"}, {"rowid"},
+		// a column behind an operator that does nothing (or little) is an expression for SQLite, a column in parentheses is a column
+		{"+b"}, {"-b"}, {"(b)"}, {"+(b)"}, {"b || ''"}, {"CAST(b AS TEXT)"}, {"~a"}, {"NOT a"}, {"b IS NULL"}, {"+b", "a"}, {"a", "-c"}, {"(b)", "(a)"}}
 	var ixdefs []string
 	for _, cs := range colsets {
 		var rec func(i int, cur []string)
@@ -493,7 +495,8 @@ func c10Class(stmts []string) string {
 	if strings.Contains(up, "PRIMARY KEY (A, A)") {
 		return ":duplicate-pk-column"
 	}
-	if strings.Contains(up, "+ 1 COLLATE") {
+	if strings.Contains(up, "+ 1 COLLATE") || strings.Contains(up, "|| '' COLLATE") {
+		// COLLATE directly behind the right operand of a binary operator (F18)
 		return ":binary-op-collate"
 	}
 	for _, empty := range []string{`"" `, `"")`, `"",`, "[]", "``)", "`` "} {
